@@ -28,6 +28,27 @@ func c12Docs(tier string) *TextSet {
 		for _, x := range extra {
 			docs = append(docs, ref.MustParse(x))
 		}
+		// objects with several members below 3 and 5 keys (path slices with spare capacity)
+		leafVals := []V{ref.Void{}, 1.0, nil, map[string]interface{}{}}
+		for _, depth := range []int{3, 5} {
+			for _, x := range leafVals {
+				for _, y := range leafVals {
+					for _, z := range []V{ref.Void{}, 2.0} {
+						o := map[string]interface{}{}
+						for k, v := range map[string]V{"x": x, "y": y, "z": z} {
+							if !ref.IsVoid(v) {
+								o[k] = v
+							}
+						}
+						var v V = o
+						for i := depth - 1; i >= 0; i-- {
+							v = map[string]interface{}{string(rune('a' + i)): v}
+						}
+						docs = append(docs, v)
+					}
+				}
+			}
+		}
 		return NewTextSet(docs)
 	})
 }
